@@ -31,6 +31,7 @@ var (
 	flagFinal  = flag.String("final", "", "append this op (for table 1) to every scenario: renderall")
 	flagSwap   = flag.String("swapfinal", "", "turn the final render op of every scenario into this op (faultsweep)")
 	flagChild  = flag.Bool("child", false, "(internal) run scenarios in this process even if they touch the registry")
+	flagEarly  = flag.String("early", "", "registry mode: override this built-in decoration name before anything else touches the registry")
 	flagRounds = flag.Int("rounds", 3, "conc mode: concurrent rounds")
 	flagGroup  = flag.Int("group", 16, "conc mode: goroutines per round")
 	flagBytes  = flag.Bool("bytes", false, "item strings are byte strings in Latin-1 transport (CSV family)")
